@@ -3,8 +3,40 @@
 usage: run_seeded.py [id ...]   -> prints one line per seeded change: caught (VIOLATION with replay) / caught-nfi / MISSED"""
 import json, os, subprocess, sys
 HERE = os.path.dirname(os.path.dirname(os.path.abspath(__file__)))
-ids = sys.argv[1:] or sorted(os.listdir(os.path.join(HERE, "seeded")))
+ISO = "--isolated" in sys.argv
+args = [a for a in sys.argv[1:] if not a.startswith("--")]
+ids = args or sorted(os.listdir(os.path.join(HERE, "seeded")))
 rc_all = 0
+if ISO:
+    # run in a private copy of /verif against a private worktree of /repo: nothing shared is touched
+    COPY, WT = "/tmp/verif-seedrun", "/tmp/repo-seedrun"
+    subprocess.run(["rsync", "-a", "--delete", "--exclude", ".git", "--exclude", "replay", HERE + "/", COPY + "/"], check=True)
+    subprocess.run(["git", "-C", "/repo", "worktree", "remove", "--force", WT], capture_output=True)
+    subprocess.check_call(["git", "-C", "/repo", "worktree", "add", "--detach", WT, "HEAD", "-q"])
+    import shutil
+    shutil.copy("/repo/src/pydrobert/speech/_version.py", WT + "/src/pydrobert/speech/_version.py")
+    for sid in ids:
+        d = os.path.join(HERE, "seeded", sid)
+        meta = json.load(open(os.path.join(d, "meta.json")))
+        a = subprocess.run(["git", "-C", WT, "apply", os.path.join(d, "patch.diff")], capture_output=True, text=True)
+        if a.returncode:
+            print(sid, "PATCH-DOES-NOT-APPLY", a.stderr.strip()[:200]); rc_all = 1; continue
+        try:
+            for prop in meta.get("checks") or [meta["property"]]:
+                p = subprocess.run([os.path.join(COPY, "check"), prop], capture_output=True, text=True, cwd=COPY,
+                                   env=dict(os.environ, PDS_REPO=WT), timeout=2400)
+                v = [l for l in p.stdout.splitlines() if l.startswith("VIOLATION")]
+                if v and not v[0].endswith("no-failing-input-found"):
+                    res = "caught (replay with failing input)"
+                elif v:
+                    res = "caught-no-failing-input-found"
+                else:
+                    res = "MISSED"; rc_all = 1
+                print("%-10s %-4s rc=%d %s | %s" % (sid, prop, p.returncode, res, (v[0] if v else (p.stdout.strip().splitlines() or ["?"])[-1])[:160]), flush=True)
+        finally:
+            subprocess.run(["git", "-C", WT, "checkout", "--", "."])
+    subprocess.run(["git", "-C", "/repo", "worktree", "remove", "--force", WT], capture_output=True)
+    sys.exit(rc_all)
 for sid in ids:
     d = os.path.join(HERE, "seeded", sid)
     meta = json.load(open(os.path.join(d, "meta.json")))
